@@ -33,7 +33,7 @@ pub struct Proj {
     /// `A` (disassembly) lines: compare only the size field
     pub da_size_only: bool,
     /// `H` lines of register sweeps: 1 registers+memory, 2 F (documented rows), 4 PC+SP, 8 T-states,
-    /// 16 T-states against Zilog's figure (documented rows), 32 control state
+    /// 16 T-states against Zilog's figure (documented rows), 32 control state, 64 F under the sweep's mask on every row
     pub swr: u8,
 }
 
@@ -374,6 +374,9 @@ pub fn compare(imp: &str, model: &str, p: &Proj) -> Option<(String, bool)> {
         }
         if p.swr & 2 != 0 && doc && a[2] != b[2] {
             return Some(("sweep: documented flags".into(), false));
+        }
+        if p.swr & 64 != 0 && a[2] != b[2] {
+            return Some(("sweep: flag byte".into(), false));
         }
         if p.swr & 4 != 0 && a[3] != b[3] {
             return Some(("sweep: PC or SP".into(), false));
